@@ -34,8 +34,41 @@ ASSUMPTIONS = [
 case_size = common.case_size
 
 
+def generate_long(rng, run_seed):
+    """an election with many rounds (17-24 candidates): anything keyed to the number of rounds -- caches, checkpoints,
+    chunked replays -- only shows here"""
+    n = rng.randint(17, 24)
+    names = ["K%02d" % i for i in range(n)]
+    rng.shuffle(names)
+    ballots = []
+    ws = rng.sample(range(1, 400), min(60, 399))
+    for i in range(rng.randint(n, 40)):
+        k = rng.randint(max(1, n - 6), n) if rng.random() < 0.7 else rng.randint(1, 4)
+        ballots.append({"r": [[c] for c in rng.sample(names, k)], "w": str(ws[i % len(ws)])})
+    # every candidate gets a distinct-ish first-place pile so that most rounds are eliminations without ties
+    for j, c in enumerate(names):
+        ballots.append({"r": [[c]] + [[x] for x in rng.sample([y for y in names if y != c], rng.randint(0, 5))], "w": str(401 + 7 * j)})
+    rule = rng.choice(["IRV", "STV", "STV", "SequentialRCV", "Alaska"])
+    kw = {"quota": "droop", "tiebreak": rng.choice([None, "borda"])}
+    if rule in ("STV", "SequentialRCV"):
+        kw.update(m=rng.randint(1, 3), simultaneous=rng.random() < 0.5)
+    if rule == "STV":
+        kw["transfer"] = "fractional"
+    if rule == "Alaska":
+        m1 = rng.randint(17, n)
+        kw.update(m_1=m1, m_2=rng.randint(1, 2), transfer="fractional", simultaneous=True)
+    ops = []
+    for _ in range(rng.randint(2, 6)):
+        op = G.wchoice(rng, [("get_profile", 6), ("get_step", 3), ("get_ranking", 1), ("get_status_df", 1)])
+        # q % 4 != 3 -> in range; spread the requests over late rounds too
+        ops.append({"obj": 0, "op": op, "q": 4 * rng.randrange(0, 64) + rng.choice([0, 1, 2]), "default": rng.random() < 0.2})
+    return {"profile": {"candidates": names, "ballots": ballots}, "objs": [{"rule": rule, "kw": kw}], "ops": ops, "policies": [{"kind": "asc"}], "long": True}
+
+
 def generate(run_seed, tier):
     rng = stream(run_seed, "gen")
+    if rng.random() < 0.03:
+        return generate_long(rng, run_seed)
     fam = G.wchoice(rng, [("ranked", 8), ("score", 2)])
     nobj = G.wchoice(rng, [(1, 5), (2, 3), (3, 1)])
     objs = []
